@@ -133,6 +133,47 @@ def extra_cfgs(tier):
         return {'a': a, 'b': b_}, {'r1': r1, 'r2': r2, 'i2': i2}
     add('shared modules: Abs with inverted first', shared2, 'comb')
 
+    # a shared named module whose FIRST instance has one wire on two of its ports (the body is written from that instance)
+    def alias_add(s):
+        a, b_ = W(s, 'a', 4), W(s, 'b', 4)
+        t, u = W(s, 't', 4), W(s, 'u', 4)
+        Add(s, 'dbl', a, a, t)
+        Add(s, 'sum', t, b_, u)
+        return {'a': a, 'b': b_}, {'t': t, 'u': u}
+    add('shared modules: Add with one wire on both operands first, ordinary Add second', alias_add, 'comb')
+
+    def alias_bufen(s):
+        a, e = W(s, 'a', 1), W(s, 'e', 1)
+        r1, r2 = W(s, 'r1', 1), W(s, 'r2', 1)
+        BufEnable(s, 'same', e, e, r1)
+        BufEnable(s, 'be', a, e, r2)
+        return {'a': a, 'e': e}, {'r1': r1, 'r2': r2}
+    add('shared modules: 1-bit BufEnable with one wire on data and enable first', alias_bufen, 'comb')
+
+    def alias_add3(s):
+        a, c = W(s, 'a', 1), W(s, 'c', 1)
+        t, u = W(s, 't', 1), W(s, 'u', 1)
+        Add(s, 'x', a, c, t, ci=c)
+        Add(s, 'y', t, a, u, ci=c)
+        return {'a': a, 'c': c}, {'t': t, 'u': u}
+    add('shared modules: 1-bit Add with carry-in wire shared with an operand first', alias_add3, 'comb')
+
+    def alias_cmp(s):
+        a, b_ = W(s, 'a', 4), W(s, 'b', 4)
+        o = [W(s, 'o%d' % k, 1) for k in range(6)]
+        Comparator(s, 'same', a, a, o[0], o[1], o[2])
+        Comparator(s, 'cmp', a, b_, o[3], o[4], o[5])
+        return {'a': a, 'b': b_}, {'o%d' % k: o[k] for k in range(6)}
+    add('shared modules: Comparator with one wire on both operands first', alias_cmp, 'comb')
+
+    def alias_reg(s):
+        a = W(s, 'a', 4)
+        h, q = W(s, 'h', 4), W(s, 'q', 4)
+        Reg(s, 'hold', h, h, reset_value=5)
+        Reg(s, 'reg', a, q, reset_value=5)
+        return {'ins': {'a': a}, 'outs': {'h': h, 'q': q}}
+    add('shared modules: Reg fed back onto itself first, ordinary Reg second', alias_reg)
+
     def hier(s):
         a, e = W(s, 'a', 3), W(s, 'e', 1)
         o, c = W(s, 'o', 3), W(s, 'c', 3)
